@@ -3,8 +3,8 @@
    A labelled transition system at the granularity of the algorithm's atomic operations.
    Thread 0 is THE goroutine that owns the Sleeper (client contract of the package: "None of the
    methods in a Sleeper can be called concurrently"); every thread (0 included) may call
-   Assert / Clear / IsAsserted on any waker.  There are as many threads as natural numbers; a
-   thread with an empty program never moves, so "any number of waker threads" is covered.
+   Assert / Clear / IsAsserted on any waker.  The threads are the positions of the lists [pcs] /
+   [progs]: any number of them.
 
    One [step] = the atomic operation the thread is stopped at (a sync/atomic call, or gopark with
    its commitSleep) TOGETHER WITH the thread-local code that follows it up to the next atomic
@@ -88,12 +88,22 @@ Record state := mkState {
   local : list nat;          (* Sleeper.localList, head first *)
   allw : list nat;           (* Sleeper.allWakers, head first *)
   wg : gstate;               (* Sleeper.waitingG *)
-  pcs : nat -> pc;
-  progs : nat -> list op
+  pcs : list pc;             (* where each thread is stopped *)
+  progs : list (list op)     (* the API calls each thread has still to invoke *)
 }.
 
 Definition upd {A} (f : nat -> A) (k : nat) (v : A) : nat -> A :=
   fun x => if Nat.eqb x k then v else f x.
+
+Fixpoint lset {A} (l : list A) (i : nat) (x : A) : list A :=
+  match l, i with
+  | [], _ => []
+  | _ :: r, O => x :: r
+  | a :: r, S j => a :: lset r j x
+  end.
+
+Definition pc_of (st : state) (t : nat) : pc := nth t (pcs st) PIdle.
+Definition prog_of (st : state) (t : nat) : list op := nth t (progs st) [].
 
 Definition set_ws (st : state) (w : nat) (v : wstate) : state :=
   mkState (upd (ws st) w v) (wident st) (shared st) (local st) (allw st) (wg st) (pcs st) (progs st).
@@ -108,9 +118,9 @@ Definition set_allw (st : state) (l : list nat) : state :=
 Definition set_wg (st : state) (g : gstate) : state :=
   mkState (ws st) (wident st) (shared st) (local st) (allw st) g (pcs st) (progs st).
 Definition set_pc (st : state) (t : nat) (p : pc) : state :=
-  mkState (ws st) (wident st) (shared st) (local st) (allw st) (wg st) (upd (pcs st) t p) (progs st).
+  mkState (ws st) (wident st) (shared st) (local st) (allw st) (wg st) (lset (pcs st) t p) (progs st).
 Definition set_prog (st : state) (t : nat) (p : list op) : state :=
-  mkState (ws st) (wident st) (shared st) (local st) (allw st) (wg st) (pcs st) (upd (progs st) t p).
+  mkState (ws st) (wident st) (shared st) (local st) (allw st) (wg st) (pcs st) (lset (progs st) t p).
 
 Definition wstate_eqb (a b : wstate) : bool :=
   match a, b with WNil, WNil | WSlp, WSlp | WAst, WAst => true | _, _ => false end.
@@ -179,9 +189,10 @@ Definition some2 (r : state * list event) : option (state * list event) := Some 
    in the code: [step] below is [step_gen true]; [step_gen false] is the variant refuted by
    no_recheck_refuted) *)
 Definition step_gen (rc : bool) (st : state) (t : nat) : option (state * list event) :=
-  match pcs st t with
+  if negb (Nat.ltb t (length (pcs st))) then None else
+  match pc_of st t with
   | PIdle =>
-      match progs st t with
+      match prog_of st t with
       | [] => None
       | o :: rest =>
           let st1 := set_prog st t rest in
@@ -304,7 +315,7 @@ Definition step_gen (rc : bool) (st : state) (t : nat) : option (state * list ev
         match g with
         | GPark =>
             (* goready(g): the parked sleeper goroutine resumes after gopark, at the loop head *)
-            match pcs st1 0 with
+            match pc_of st1 0 with
             | PNwParked c => Some (set_pc st1 0 (PNwLoad1 c), [EWake t])
             | _ => Some (st1, [EWake t])
             end
@@ -349,8 +360,8 @@ Definition step (st : state) (t : nat) : option state :=
   match step_ev st t with Some (s, _) => Some s | None => None end.
 
 (* zero-valued Sleeper and Wakers, nobody inside a call *)
-Definition init (ps : nat -> list op) : state :=
-  mkState (fun _ => WNil) (fun _ => 0%Z) [] [] [] G0 (fun _ => PIdle) ps.
+Definition init (ps : list (list op)) : state :=
+  mkState (fun _ => WNil) (fun _ => 0%Z) [] [] [] G0 (map (fun _ => PIdle) ps) ps.
 
 (* run a schedule, collecting the events (most recent LAST) *)
 Fixpoint run_gen (rc : bool) (st : state) (sched : list nat) : option (state * list event) :=
@@ -367,6 +378,3 @@ Fixpoint run_gen (rc : bool) (st : state) (sched : list nat) : option (state * l
       end
   end.
 Definition run := run_gen true.
-
-(* programs given as a finite list (thread i runs the i-th program, all others nothing) *)
-Definition progs_of_list (l : list (list op)) : nat -> list op := fun t => nth t l [].
